@@ -292,6 +292,10 @@ class NDNApp:
 
         async def starting_task():
             for name, route, validator, need_raw_packet, need_sig_ptrs in self._autoreg_routes:
+                if not self.face.running:
+                    # The connection is gone (and the tables are cleared): attaching the remaining routes now
+                    # would leave their callbacks behind and make the next start-up fail as duplicates
+                    break
                 await self.register(name, route, validator, need_raw_packet, need_sig_ptrs)
             if after_start:
                 try:
